@@ -31,7 +31,10 @@ import (
 //	unary <adv> <blob|void> <n> <seed> <pad> <via> <hold>
 //	      blob returns n seeded bytes (n<0: the handler fails); pad = bytes of request padding
 //	stream <adv> xch <mult> <initfail> <seed> <pad> <via> <hold> <turn>;<turn>...
-//	      turn = <nbytes>:<o|e>:<via>   exchange answers the input repeated <mult> times; e = this turn's handler fails
+//	      turn = <nbytes>:<o|e|p|n|d>:<via>   exchange answers the input repeated <mult> times; this turn's handler
+//	             e returns an error, p panics, n emits nothing, d emits two batches (all after the input was resolved)
+//	      xchl / xchi instead of xch: same method, the client's input schema is large_binary (cast succeeds) /
+//	             int64 (cast fails on the first turn)
 //	stream <adv> gen <count> <n> <seed> <pad> <via> <hold> <turn>;...
 //	      producer: <count> batches of n bytes then finish; turn = t:<via> (a tick)
 //	release                                               client frees every pointer it still holds
@@ -50,7 +53,7 @@ import (
 const c36MinBatchBytes = 256
 
 // how long the client waits for a response byte before it declares the session stuck
-var c36ReadTimeout = 4 * time.Second
+var c36ReadTimeout = 30 * time.Second
 
 func init() {
 	os.Setenv("VGI_RPC_SHM_MIN_BATCH_BYTES", strconv.Itoa(c36MinBatchBytes))
@@ -127,8 +130,26 @@ func (s *c36XchState) Exchange(_ context.Context, in arrow.RecordBatch, out *vgi
 		return &vgirpc.RpcError{Type: "HandlerSawNonData", Message: fmt.Sprintf("input has %d rows", in.NumRows())}
 	}
 	data := in.Column(0).(*array.Binary).Value(0)
-	if len(data) > 0 && data[0] == 0xEE {
-		return &vgirpc.RpcError{Type: "ValueError", Message: "scripted turn failure"}
+	if len(data) > 0 {
+		switch data[0] {
+		case 0xEE:
+			return &vgirpc.RpcError{Type: "ValueError", Message: "scripted turn failure"}
+		case 0xEF:
+			panic("scripted turn panic")
+		case 0xED:
+			return nil // no data batch emitted: the framework's validation fails the turn
+		case 0xEC:
+			// two data batches: the collector refuses the second, the handler hands that error back
+			if err := out.Emit(c36DataBatch(c36DataSchema, []byte{1})); err != nil {
+				return err
+			}
+			b := c36DataBatch(c36DataSchema, []byte{2})
+			if err := out.Emit(b); err != nil {
+				b.Release()
+				return err
+			}
+			return nil
+		}
 	}
 	// Emit takes ownership of the batch
 	return out.Emit(c36DataBatch(c36DataSchema, bytes.Repeat(data, int(s.mult))))
@@ -316,7 +337,7 @@ func (cl *c36Client) finish() (leftover int, exited bool) {
 	select {
 	case <-cl.done:
 		exited = true
-	case <-time.After(5 * time.Second):
+	case <-time.After(30 * time.Second):
 	}
 	return cl.s2c.Pending(), exited
 }
@@ -521,7 +542,7 @@ type c36Turn struct {
 	via   string
 }
 
-func (cl *c36Client) stream(method, adv string, params arrow.RecordBatch, via string, hold bool, inSchema *arrow.Schema, turns []c36Turn) []string {
+func (cl *c36Client) stream(method, adv string, params arrow.RecordBatch, via string, hold bool, inSchema *arrow.Schema, turns []c36Turn, initFails bool) []string {
 	mk, mv, hasName := cl.requestMeta(method, adv)
 	w := cl.send(params, via, cl.attached, mk, mv)
 	defer w.batch.Release()
@@ -609,13 +630,30 @@ func (cl *c36Client) stream(method, adv string, params arrow.RecordBatch, via st
 		}
 	}
 	if failed {
-		// the call ended with an error: take back own slots the server never read. A slot the
-		// server did read is already free and nothing was allocated since, so this is a no-op then.
-		if sent > 0 {
-			cl.reclaim(cur)
-		}
-		if consumed == 0 {
+		// The client takes back exactly the slots the server never read — and no others, so a
+		// server that reads a slot but forgets to free it is not covered up:
+		//  * a refusal before dispatch (IOError on a response stream with the EMPTY schema): the
+		//    request slot and the input already sent;
+		//  * a failing init handler (scripted): the input already sent was drained unread;
+		//  * an input refused by the stream loop (IOError inside the output stream): that input.
+		// A turn that fails in the handler, in the cast or in validation had its input resolved
+		// first: freeing that slot is the server's job.
+		last := items[len(items)-1]
+		refusedBeforeDispatch := consumed == 0 && last == "err:IOError" && rd.Schema().NumFields() == 0
+		switch {
+		case refusedBeforeDispatch:
+			if sent > 0 {
+				cl.reclaim(cur)
+			}
 			cl.reclaim(w)
+		case consumed == 0 && initFails:
+			if sent > 0 {
+				cl.reclaim(cur)
+			}
+		case last == "err:IOError":
+			if sent > 0 {
+				cl.reclaim(cur)
+			}
 		}
 	}
 	return items
@@ -824,6 +862,12 @@ func c36Exec(c *Case) {
 			seed, _ := strconv.ParseInt(f[5], 10, 64)
 			pad, _ := strconv.Atoi(f[6])
 			via, hold := f[7], f[8] == "1"
+			// xchl / xchi: the exchange method fed with a castable (large_binary) / an uncastable
+			// (int64) input schema: the framework casts, or fails to cast, AFTER resolving the input
+			wireKind := method
+			if strings.HasPrefix(method, "xch") {
+				method = "xch"
+			}
 			params := c36ParamsBatch(refSrv, method, a, b, seed, pad)
 			pb := c36Describe(params)
 			initErr := "-"
@@ -833,8 +877,13 @@ func c36Exec(c *Case) {
 			var turns []c36Turn
 			var mturns, vias []string
 			inSchema := c36DataSchema
-			if method == "gen" {
+			switch wireKind {
+			case "gen":
 				inSchema = c36TickSchema
+			case "xchl":
+				inSchema = arrow.NewSchema([]arrow.Field{{Name: "data", Type: arrow.BinaryTypes.LargeBinary, Nullable: true}}, nil)
+			case "xchi":
+				inSchema = arrow.NewSchema([]arrow.Field{{Name: "data", Type: arrow.PrimitiveTypes.Int64, Nullable: true}}, nil)
 			}
 			left := a
 			if f[9] != "-" {
@@ -858,16 +907,41 @@ func c36Exec(c *Case) {
 						nb, _ := strconv.ParseInt(p[0], 10, 64)
 						tvia = p[2]
 						data := c36Bytes(seed+int64(i)*31, nb)
+						flagByte := map[string]byte{"e": 0xEE, "p": 0xEF, "n": 0xED, "d": 0xEC}
 						if len(data) > 0 {
 							data[0] = 0x01
-							if p[1] == "e" {
-								data[0] = 0xEE
+							if fb, ok := flagByte[p[1]]; ok {
+								data[0] = fb
 							}
 						}
-						in = c36DataBatch(c36DataSchema, data)
-						if p[1] == "e" && len(data) > 0 {
+						switch wireKind {
+						case "xchl":
+							lb := array.NewBinaryBuilder(c35Mem, arrow.BinaryTypes.LargeBinary)
+							lb.Append(data)
+							arr := lb.NewArray()
+							lb.Release()
+							in = array.NewRecordBatch(inSchema, []arrow.Array{arr}, 1)
+							arr.Release()
+						case "xchi":
+							ib := array.NewInt64Builder(c35Mem)
+							for k := int64(0); k < nb/8+1; k++ {
+								ib.Append(seed + k)
+							}
+							arr := ib.NewArray()
+							ib.Release()
+							in = array.NewRecordBatch(inSchema, []arrow.Array{arr}, int64(arr.Len()))
+							arr.Release()
+						default:
+							in = c36DataBatch(c36DataSchema, data)
+						}
+						switch {
+						case wireKind == "xchi":
+							outc = "e=TypeError" // castRecordBatch refuses int64 -> binary
+						case p[1] == "e" && len(data) > 0:
 							outc = "e=ValueError"
-						} else {
+						case (p[1] == "p" || p[1] == "n" || p[1] == "d") && len(data) > 0:
+							outc = "e=RuntimeError"
+						default:
 							ob := c36DataBatch(c36DataSchema, bytes.Repeat(data, int(a)))
 							outc = "r=" + c36Describe(ob).String()
 							ob.Release()
@@ -886,19 +960,19 @@ func c36Exec(c *Case) {
 			if strings.HasPrefix(adv, "g") {
 				everGood = true
 			}
-			items := cl.stream(method, adv, params, via, hold, inSchema, turns)
+			items := cl.stream(method, adv, params, via, hold, inSchema, turns, initErr != "-")
 			pturns := make([]c36Turn, len(turns))
 			for i, t := range turns {
 				pturns[i] = c36Turn{t.input, "i"}
 			}
-			pitems := plain.stream(method, "-", params, "i", false, inSchema, pturns)
+			pitems := plain.stream(method, "-", params, "i", false, inSchema, pturns, initErr != "-")
 			for _, t := range turns {
 				t.input.Release()
 			}
 			params.Release()
 			c36Oracles(c, l, via, vias, cl.sentPtr, items, pitems, everGood, initErr != "-")
 			c36SlotOracles(c, l, cl, segs)
-			c.Stat("stream-" + method)
+			c.Stat("stream-" + wireKind)
 			c.Out(ml, report(items))
 		default:
 			c.Out(l, "err:bad-op")
@@ -1105,8 +1179,8 @@ func c36Gen(g *Gen) {
 						}
 					}
 					flag := "o"
-					if r.Chance(10) {
-						flag = "e"
+					if r.Chance(22) {
+						flag = Pick(r, []string{"e", "e", "p", "n", "d"})
 					}
 					turns = append(turns, fmt.Sprintf("%d:%s:%s", Pick(r, []int{0, 1, 50, 240, 300, 900, 2500}), flag, tv))
 				}
@@ -1118,7 +1192,8 @@ func c36Gen(g *Gen) {
 				if r.Chance(7) {
 					initfail = 1
 				}
-				lines = append(lines, fmt.Sprintf("stream %s xch %d %d %d %d %s %d %s", adv, Pick(r, []int{0, 1, 1, 2, 5}), initfail, seed, pad, via, hold, ts))
+				lines = append(lines, fmt.Sprintf("stream %s %s %d %d %d %d %s %d %s", adv, Pick(r, []string{"xch", "xch", "xch", "xch", "xchl", "xchl", "xchi"}),
+					Pick(r, []int{0, 1, 1, 2, 5}), initfail, seed, pad, via, hold, ts))
 			default:
 				count := r.Intn(4)
 				nt := count + Pick(r, []int{0, 1, 1, 1, 2})
@@ -1137,6 +1212,40 @@ func c36Gen(g *Gen) {
 				lines = append(lines, fmt.Sprintf("stream %s gen %d %d %d %d %s %d %s", adv, count, Pick(r, sizes), seed, pad, via, hold, ts))
 			}
 		}
+		g.Case(lines...)
+	}
+	// turns that FAIL after their input arrived as a pointer (handler error, panic, no emit, double
+	// emit, uncastable input, castable input), and failing unary / init calls whose REQUEST arrived
+	// as a pointer: same answers as the plain session, and every slot must be free afterwards
+	for i, nf := 0, g.N(60, 1200); i < nf; i++ {
+		lines := []string{fmt.Sprintf("seg 0 %d", Pick(r, []int{9000, 20000, 60000}))}
+		for k := r.Range(2, 5); k > 0; k-- {
+			adv := Pick(r, []string{"g0", "g0", "-"})
+			if k == 5 || len(lines) == 1 {
+				adv = "g0"
+			}
+			hold := r.Intn(2)
+			switch r.Intn(4) {
+			case 0: // failing / void unary with a pointer request
+				lines = append(lines, fmt.Sprintf("unary %s %s %d %d %d s0 %d", adv, Pick(r, []string{"blob", "void"}), Pick(r, []int{-1, -1, 300}), r.Intn(1000), Pick(r, []int{300, 2000}), hold))
+			case 1: // failing init with a pointer request and a pointer first input
+				lines = append(lines, fmt.Sprintf("stream %s xch 1 1 %d %d s0 %d %d:o:s0", adv, r.Intn(1000), Pick(r, []int{300, 2000}), hold, Pick(r, []int{300, 900})))
+			default:
+				nt := r.Range(1, 4)
+				failAt := r.Intn(nt)
+				ts := make([]string, nt)
+				for t := range ts {
+					flag := "o"
+					if t == failAt {
+						flag = Pick(r, []string{"e", "p", "n", "d"})
+					}
+					ts[t] = fmt.Sprintf("%d:%s:%s", Pick(r, []int{240, 300, 900, 2500}), flag, Pick(r, []string{"s0", "s0", "s0", "i"}))
+				}
+				m := Pick(r, []string{"xch", "xch", "xchl", "xchi"})
+				lines = append(lines, fmt.Sprintf("stream %s %s %d 0 %d %d %s %d %s", adv, m, Pick(r, []int{1, 2}), r.Intn(1000), Pick(r, []int{0, 300}), Pick(r, []string{"i", "s0"}), hold, strings.Join(ts, ";")))
+			}
+		}
+		lines = append(lines, "release")
 		g.Case(lines...)
 	}
 	// out-of-order release: several large results held in one roomy segment, an EARLIER one given
